@@ -40,9 +40,29 @@ type server struct {
 
 var caseNo int
 
+// basePort picks four consecutive loopback ports that are free right now (receiver, its
+// internal port, the recording proxy, one spare). The starting point depends on shard and
+// process id, so that shards of one run and of runs going on at the same time rarely meet;
+// busy ports are stepped over.
 func basePort() int {
 	shard, _ := strconv.Atoi(os.Getenv("VT_SHARD"))
-	return 21000 + (shard%400)*4 + (os.Getpid()%5)*2000
+	start := (shard*131 + os.Getpid()*17 + caseNo*7) % 9000
+	for i := 0; i < 9000; i++ {
+		base := 21000 + ((start+i)%9000)*4
+		free := true
+		for k := 0; k < 4 && free; k++ {
+			ln, err := net.Listen("tcp", fmt.Sprintf("127.0.0.1:%d", base+k))
+			if err != nil {
+				free = false
+			} else {
+				ln.Close()
+			}
+		}
+		if free {
+			return base
+		}
+	}
+	return 21000 + (shard%400)*4
 }
 
 func startServer(t *vt.T, sources, keys []string) *server {
@@ -461,6 +481,7 @@ func propAuth(t *vt.T) {
 		return fmt.Sprintf("%s|%d", b1, st2)
 	}
 	told := ask()
+	var allowedEarlier []string
 	n := t.IntRange("nRequests", 1, 14)
 	for i := 0; i < n; i++ {
 		srcOpts := []string{"alpha", "zeta", "", "ALPHA", "alp/ha", "..", "alpha.*", "a|b", "beta.b", "gam/ma", "alphax"}
@@ -518,6 +539,13 @@ func propAuth(t *vt.T) {
 		t.Note("%s -> %d %v (allowed=%v)", r.desc, status, err, allowed)
 		if allowed {
 			told = ask() // an authorised request may change what the sender is told
+			// validation and delivery of what it sent run behind the answer: let them finish, and
+			// remember whose directories a straggler would show up in
+			time.Sleep(60 * time.Millisecond)
+			s.settle()
+			if source != "" {
+				allowedEarlier = append(allowedEarlier, source)
+			}
 			continue
 		}
 		// differs from an authorised request in exactly one of source / key?
@@ -536,6 +564,21 @@ func propAuth(t *vt.T) {
 			t.Violation("unauthorised-request-not-refused", "%s was answered %d (sources %v, keys %v)", r.desc, status, sources, keys)
 		}
 		for _, d := range diffSnap(before, after) {
+			late := false
+			for _, es := range allowedEarlier {
+				if es == source {
+					continue // its own source: judged strictly
+				}
+				for _, pre := range allowedPrefixes(es) {
+					if under(d[1:], pre) {
+						late = true
+					}
+				}
+			}
+			if late {
+				t.Class("late-effect-of-earlier-authorised-request")
+				continue
+			}
 			if !under(d[1:], "area/recv/data/log/messages") {
 				t.Violation("unauthorised-request-had-effect", "%s was refused (%d) but changed %s (stage, final, receive-log and serve directories must stay untouched)", r.desc, status, d)
 			}
